@@ -5,6 +5,7 @@
 //   - time.Now/Since/Until/Sleep/After/AfterFunc/NewTimer/Timer -> vclock
 //   - import "sync"        -> zzverif/vsync   (scheduler-aware Mutex/RWMutex/Once/WaitGroup)
 //   - import "math/rand"   -> zzverif/vrand   (enumerable choice point)
+//   - import ".../pbkdf2"   -> zzverif/vpbkdf2 (the real functions; C04 can abstract iteration counts above a cap)
 //   - import "crypto/rand" -> zzverif/vcrand  (recordable randomness)
 //   - import "net" in packages client and spnego -> zzverif/vnet (in-memory endpoints)
 //   - go f(x)              -> vsched.Go(func(){ f(x) }) with arguments evaluated at the go statement
@@ -187,6 +188,8 @@ func rewriteFile(path, rel string) ([]byte, bool, error) {
 			swap("vrand", "rand")
 		case "crypto/rand":
 			swap("vcrand", "rand")
+		case "golang.org/x/crypto/pbkdf2", "github.com/jcmturner/gofork/x/crypto/pbkdf2":
+			swap("vpbkdf2", "pbkdf2")
 		case "net":
 			if netPkgs[pkgDir] {
 				swap("vnet", "net")
